@@ -3,6 +3,7 @@ package rules
 import (
 	"fmt"
 	"go/token"
+	"go/types"
 	"sort"
 	"strings"
 
@@ -57,6 +58,7 @@ func c03(r *core.Run) {
 	r.Rule("C03/R2", "path classes of the per-proof routine: each path performs exactly one of {credit} | {remove} | {remove, burn}; credit behind {proven=true ∨ young=true}; burn behind proven=false ∧ young=false; predicate arguments ⊵ Ctx.BlockHeight and Store(FileProof).LastProven")
 	r.Rule("C03/R3", "only counted provers are paid: the payout recipient ⊵ size-tracker keys only; amount ⊵ {tracker entry, total size, pulled coins}")
 	r.Rule("C03/R4", "the paid pool is what was pulled: the payout amount depends on every source of the gauge->module pull amount")
+	r.Rule("C03/R6", "decode targets are fresh: no proto Unmarshal on the reward path decodes into a variable captured from an enclosing function (the generated decoder appends to repeated fields, so a reused target accumulates the prover lists of earlier files)")
 	r.Rule("C03/R5", "the keys handed to the per-proof routine are exactly the processed file's prover list: file.Proofs itself or a per-file copy of len(file.Proofs) elements filled from it")
 	bb, _ := p.BlockEntries()
 	var entry *ssa.Function
@@ -315,6 +317,9 @@ func c03(r *core.Run) {
 		r.Floor("C03/R5", nCall, 1, "per-proof routine call sites")
 	}
 
+	// ---- R6 decode targets are fresh per callback invocation
+	staleDecodeTargets(r, "C03/R6", funcs)
+
 	// ---- R3 / R4
 	insts := p.BankInstances(entry)
 	var pull, pay []core.BankInstance
@@ -426,4 +431,61 @@ func iterationListIsFileList(p *core.Program, sl ssa.Value, file ssa.Value) (boo
 		return false, "iterates a buffer that is conditionally re-allocated (it can be longer than the file's list)"
 	}
 	return false, "iterates a slice that is not a fresh copy of file.Proofs"
+}
+
+// staleDecodeTargets: proto Unmarshal into a variable that outlives the callback invocation (a captured variable)
+// whose type has repeated fields.
+func staleDecodeTargets(r *core.Run, rule string, funcs []*ssa.Function) {
+	p := r.Prog
+	n := 0
+	for _, fn := range funcs {
+		allInstrs(fn, func(in ssa.Instruction) {
+			call, ok := in.(ssa.CallInstruction)
+			if !ok {
+				return
+			}
+			name := core.CalleeFullName(call)
+			if !(strings.Contains(name, "codec") && (strings.HasSuffix(name, ".MustUnmarshal") || strings.HasSuffix(name, ".Unmarshal"))) {
+				return
+			}
+			args := call.Common().Args
+			tgt := args[len(args)-1]
+			if mi, ok := tgt.(*ssa.MakeInterface); ok {
+				tgt = mi.X
+			}
+			n++
+			fv, isFree := tgt.(*ssa.FreeVar)
+			if !isFree {
+				r.Trivial(rule, core.FnName(fn)+":decode-target-fresh", p.InstrPos(call), "decodes into a variable local to this invocation")
+				return
+			}
+			// repeated fields?
+			hasRepeated := false
+			if st, ok := derefStruct(fv.Type()); ok {
+				for i := 0; i < st.NumFields(); i++ {
+					if _, isSlice := st.Field(i).Type().Underlying().(*types.Slice); isSlice && st.Field(i).Type().String() != "[]byte" {
+						hasRepeated = true
+					}
+				}
+			}
+			if hasRepeated {
+				r.Violation(rule, core.FnName(fn)+":decode-target-reused:"+core.TypeName(fv.Type()), p.InstrPos(call), "a record is decoded into a variable captured from the enclosing function: proto Unmarshal appends to repeated fields, so from the second record on the decoded value also carries the repeated entries (e.g. the prover list) of all earlier records")
+			} else {
+				r.Trivial(rule, core.FnName(fn)+":decode-target-fresh", p.InstrPos(call), "captured target without repeated fields")
+			}
+		})
+	}
+	r.Floor(rule, n, 3, "decode sites on the path")
+}
+
+func derefStruct(t types.Type) (*types.Struct, bool) {
+	for i := 0; i < 3; i++ {
+		if pt, ok := t.Underlying().(*types.Pointer); ok {
+			t = pt.Elem()
+			continue
+		}
+		break
+	}
+	st, ok := t.Underlying().(*types.Struct)
+	return st, ok
 }
